@@ -61,11 +61,14 @@ def r22_1(ctx, rep):
     for s in walk_local(fn):
         if isinstance(s, ast.Assign) and isinstance(s.value, ast.Call) and re.search(r"(\w+)\.duration for \1 in self\.delay_arguments", norm(s.value)):
             durations = s.targets[0].id
+    # on the control-flow graph: wherever the dependency test is known to hold, no path reaches the normal exit
+    from ..cfg import assume_truth
     ok = False
-    for s in walk_local(fn):
-        if isinstance(s, ast.If) and isinstance(s.test, ast.Call) and call_name(s.test) == "ca.depends_on" and durations \
-                and is_name(s.test.args[0], durations) and is_name(s.test.args[1], tv):
-            ok = any(isinstance(x, ast.Raise) for x in s.body)
+    if durations:
+        cfg = CFG(fn, R)
+        expr = "ca.depends_on(%s, %s)" % (durations, tv)
+        yes = [x for x in cfg.nodes if assume_truth(x, expr) is True]
+        ok = bool(yes) and all(cfg.exit not in cfg.reachable(a.id) for a in yes)
     rep.ob(R, site, "dependency raises", ok, "ca.depends_on(<all durations>, <disallowed symbols>) must raise")
 
 
